@@ -457,7 +457,7 @@ REWRITING = CASE | {"expandtabs", "zfill", "format", "join", "center", "ljust", 
 IDENTITY_CALLS = {"str", "intern"}
 
 
-def _transformations(res, t, seen):
+def _transformations(res, t, seen, cleaning=CLEANING):
     """Follows the text a component is taken from back to the input and yields (name, term) for every step that is not a
     cut (slice, element of a partition/split): the components of the RFC decomposition are substrings of the cleaned input."""
     while True:
@@ -471,13 +471,13 @@ def _transformations(res, t, seen):
                 return
             seen.add(t)
             for alt in res.phis.get((t[1], t[2]), ()):
-                yield from _transformations(res, alt, seen)
+                yield from _transformations(res, alt, seen, cleaning)
             return
         elif tag == "call" and t[1][0] == "attr" and t[1][1][0] not in ("global", "ext", "builtin", "module"):
             m = t[1][2]
-            if m in REWRITING:
+            if m in REWRITING or (m in CLEANING and m not in cleaning):
                 yield m, t
-            elif m not in CUTS | CLEANING:
+            elif m not in CUTS | cleaning:
                 raise AnalysisError(f"split_url: a component is produced by .{m}() - neither a cut nor a known rewriting (unknown idiom)")
             t = t[1][1]
         elif tag == "call" and t[1][0] == "attr" and t[1][2] in ("match", "fullmatch", "search") and t[2]:
@@ -491,7 +491,7 @@ def _transformations(res, t, seen):
             if name in REWRITING or name.endswith("QUOTER") or name in ("quote", "unquote"):
                 yield name, t
                 for a in texts:
-                    yield from _transformations(res, a, seen)
+                    yield from _transformations(res, a, seen, cleaning)
                 return
             raise AnalysisError(f"split_url: a component is produced by {show(t)[:60]} (unknown idiom)")
         elif tag == "binop" and t[1] == "Add":
@@ -573,3 +573,43 @@ def pre_encoded_identity(ctx: Ctx):
                 ok = False
     ctx.ob(rule, fn.qual, "dispatch on `encoded`", ok, "the verbatim constructor must be used exactly when encoded is true", where(fn, fn.node),
            sample="pre_encoded_url iff encoded")
+
+
+def split_netloc_verbatim(ctx: Ctx):
+    """B3-NETLOC: user, password and host returned by split_netloc are substrings of the authority it was given (cuts at '@', ':',
+    '[' and ']' only) and the port is int() of one. Nothing is un-escaped, case-mapped or stripped on the way: the parser applies
+    the function to the authority as written and the lazy accessors apply it again to the stored one, so any rewriting step that is
+    not idempotent makes a freshly parsed URL and its unpickled twin disagree - and the parts would no longer be "the split of the
+    authority"."""
+    rule = "B3-NETLOC"
+    ctx.rule(rule, floor=3, what="components of split_netloc are substrings of its argument")
+    fi = ctx.model.func("_parse.split_netloc")
+    r = analyze(ctx.model, fi)
+    ctx.functions.add(fi.qual)
+    rets = [(v, n) for _s, v, n in r.returns if v[0] == "tuple" and len(v[1]) == 4]
+    if not rets:
+        raise AnalysisError("split_netloc does not return 4-tuples (unknown idiom)")
+    names = ("user", "password", "host")
+    for i, name in enumerate(names):
+        ctx.instance(rule)
+        bad = {}
+        for v, n in rets:
+            t = v[1][i]
+            # `x or None` / `x if x else None`: the text alternative is what matters
+            alts = [t]
+            if t[0] == "boolop":
+                alts = list(t[2])
+            elif t[0] == "ifexp":
+                alts = [t[2], t[3]]
+            for a in alts:
+                if a[0] == "const":
+                    continue
+                for what, tt in _transformations(r, a, set(), cleaning=frozenset()):
+                    bad.setdefault(what, (tt, n))
+        for what, (tt, n) in sorted(bad.items()):
+            ctx.ob(rule, fi.qual, f"{name} rewritten by {what}", False,
+                   f"the {name} split_netloc returns is not a substring of the authority: it passes through {what} ({show(tt)[:70]}). The "
+                   "function runs once on the authority as written and again on the stored one (lazy accessors, unpickled copies): a "
+                   "rewriting that is not idempotent makes the two disagree", where(fi, n), sample="substring of the argument")
+        if not bad:
+            ctx.ob(rule, fi.qual, f"{name} is a substring", True, "", where(fi, fi.node), sample="substring of the argument")
